@@ -47,6 +47,9 @@ from solvor.types import Result
 
 __all__ = ["articulation_points", "bridges"]
 
+# Marks DFS roots; None cannot be used because None is a valid (hashable) node label
+_NO_PARENT: object = object()
+
 
 def articulation_points[S](
     nodes: Iterable[S],
@@ -75,7 +78,7 @@ def articulation_points[S](
                 adj[w].append(v)
     discovery: dict[S, int] = {}
     low: dict[S, int] = {}
-    parent: dict[S, S | None] = {}
+    parent: dict[S, S | object] = {}
     ap: set[S] = set()
     time = [0]
     iterations = 0
@@ -99,7 +102,7 @@ def articulation_points[S](
                 # v is an articulation point if:
                 # 1. v is root and has 2+ children, OR
                 # 2. v is not root and low[w] >= discovery[v]
-                if parent[v] is None:
+                if parent[v] is _NO_PARENT:
                     if children >= 2:
                         ap.add(v)
                 elif low[w] >= discovery[v]:
@@ -111,7 +114,7 @@ def articulation_points[S](
     # Handle disconnected components
     for v in node_list:
         if v not in discovery:
-            parent[v] = None
+            parent[v] = _NO_PARENT
             dfs(v)
 
     return Result(ap, len(ap), iterations, n)
@@ -145,7 +148,7 @@ def bridges[S](
                 adj[w].append(v)
     discovery: dict[S, int] = {}
     low: dict[S, int] = {}
-    parent: dict[S, S | None] = {}
+    parent: dict[S, S | object] = {}
     bridge_list: list[tuple[S, S]] = []
     time = [0]
     iterations = 0
@@ -176,7 +179,7 @@ def bridges[S](
     # Handle disconnected components
     for v in node_list:
         if v not in discovery:
-            parent[v] = None
+            parent[v] = _NO_PARENT
             dfs(v)
 
     return Result(bridge_list, len(bridge_list), iterations, n)
